@@ -5,6 +5,10 @@
 //! read through deserialize_any and through dynamic typed targets (dynde.rs), item-wise (`Deserializer::get`)
 //! and in bulk.  The case carries the view (wire form), the reads requested, the implementation's results, the
 //! generator's logical rows and, for source "arrow", what arrow-rs accessors say (an independent oracle).
+//! After the random part comes a grid (`grid_cells`, marked `"grid": kind` in the case) over the (column, target)
+//! cells the random part reaches rarely: dictionaries into every string-like target, structs into maps with every
+//! kind of key target, temporal / decimal columns at their boundary values into string / bytes targets, float
+//! narrowing and widening, and struct views in which two children carry the same name (source "wire" only).
 use crate::arrowsrc;
 use crate::dump::view_to_json;
 use crate::lgen;
@@ -51,9 +55,78 @@ fn reads_for(rng: &mut Rng, field: &Value, rows: &[Value]) -> Vec<Value> {
         let i = rng.usize(n);
         out.push(json!({"ty": wiregen::record_target(&v, name, rng), "idx": i}));
     }
+    // a struct view in which two children carry the same name (source "wire" only): the natural struct target repeats
+    // the name (above); here also the name listed once (with the type of its first / of its last occurrence), the
+    // map and the tuple views of the struct
+    if let Some(dups) = dup_targets(field) {
+        let live: Vec<usize> = (0..n).filter(|i| !rows[*i].is_null()).collect();
+        for ty in &dups {
+            for _ in 0..2.min(live.len()) {
+                let i = *rng.pick(&live);
+                let ty = if rng.chance(1, 4) && field["nullable"].as_bool().unwrap_or(false) { json!({"option": ty}) } else { ty.clone() };
+                out.push(json!({"ty": {"struct": [[name, ty]]}, "idx": i}));
+            }
+        }
+    }
     // beyond the end
     out.push(json!({"ty": "any", "idx": n}));
     out
+}
+
+fn has_dup_names(field: &Value) -> bool {
+    if field["dt"]["t"] != "Struct" {
+        return false;
+    }
+    let names: Vec<&str> = field["dt"]["fields"].as_array().unwrap().iter().map(|f| f["name"].as_str().unwrap()).collect();
+    names.iter().enumerate().any(|(i, a)| names[..i].contains(a))
+}
+
+/// column targets for a struct column with a repeated child name (None for every other column)
+fn dup_targets(field: &Value) -> Option<Vec<Value>> {
+    if !has_dup_names(field) {
+        return None;
+    }
+    let fs = field["dt"]["fields"].as_array().unwrap();
+    let nat: Vec<(String, Value)> = fs.iter().map(|f| (f["name"].as_str().unwrap().to_string(), wiregen::natural_target(f))).collect();
+    let mut first: Vec<Value> = Vec::new();
+    let mut last: Vec<Value> = Vec::new();
+    for (i, (nm, ty)) in nat.iter().enumerate() {
+        if !nat[..i].iter().any(|(m, _)| m == nm) {
+            first.push(json!([nm, ty]));
+            let (_, lty) = nat.iter().rev().find(|(m, _)| m == nm).unwrap();
+            last.push(json!([nm, lty]));
+        }
+    }
+    let mut out = vec![
+        json!({"struct": nat.iter().map(|(nm, ty)| json!([nm, ty])).collect::<Vec<_>>()}),
+        json!({"struct": first}),
+        json!({"map": ["string", "any"]}),
+        json!({"map": ["any", "any"]}),
+        json!({"tuple": nat.iter().map(|(_, ty)| ty.clone()).collect::<Vec<_>>()}),
+        json!({"struct": nat.iter().map(|(nm, _)| json!([nm, "any"])).collect::<Vec<_>>()}),
+        json!({"struct": first.iter().map(|p| json!([p[0], "any"])).collect::<Vec<_>>()}),
+    ];
+    if last != first {
+        out.push(json!({"struct": last}));
+    }
+    Some(out)
+}
+
+/// give one child of a struct column the name of another one, in the field and in every row
+fn make_dup_names(r: &mut Rng, field: &mut Value, rows: &mut [Value]) {
+    let k = field["dt"]["fields"].as_array().map(|a| a.len()).unwrap_or(0);
+    if k < 2 {
+        return;
+    }
+    let i = r.usize(k);
+    let j = (i + 1 + r.usize(k - 1)) % k;
+    let name = field["dt"]["fields"][i]["name"].clone();
+    field["dt"]["fields"][j]["name"] = name.clone();
+    for row in rows.iter_mut() {
+        if !row.is_null() {
+            row["struct"][j][0] = name.clone();
+        }
+    }
 }
 
 fn pick_field(r: &mut Rng, c: usize, leafs: &[Value], thorough: bool) -> Value {
@@ -87,12 +160,21 @@ pub fn gen(ctx: &Ctx) -> Vec<Value> {
             4 => 17,
             _ => 1 + r.usize(12),
         };
-        let rows = lgen::gen_rows(&mut r, &field, n);
+        let mut field = field;
+        let mut rows = lgen::gen_rows(&mut r, &field, n);
         let src = match c * 3 / total {
             0 => "wire",
             1 => "arrow",
             _ => "own",
         };
+        // duplicate child names in a struct VIEW (arrow-rs / to_marrow may refuse them: source "wire" only); decided
+        // by a side stream of the case's seed so that every other case stays what it was
+        if src == "wire" && field["dt"]["t"] == "Struct" && field["dt"]["fields"].as_array().unwrap().len() >= 2 {
+            let mut side = Rng::new(sub_seed ^ 0x0D0B_1E5);
+            if side.chance(1, 15) {
+                make_dup_names(&mut side, &mut field, &mut rows);
+            }
+        }
         let mut case = json!({"id": format!("read-{c:06}"), "seed": sub_seed, "src": src, "field": field, "fm": wiregen::fmeta(&field), "rows": rows});
         match src {
             "wire" => {
@@ -119,7 +201,259 @@ pub fn gen(ctx: &Ctx) -> Vec<Value> {
         case["reads"] = Value::Array(reads_for(&mut r, &field, &vis_rows));
         out.push(case);
     }
+    // the grid of (column, target) cells the random part reaches rarely or never; its own stream and ids after the
+    // random part's, so that the cases above are unchanged
+    let mut grng = Rng::new(ctx.seed ^ 0x0C02_6A1D);
+    for _ in 0..if ctx.thorough() { 10 } else { 1 } {
+        for cell in grid_cells(&mut grng) {
+            let mut r = grng.fork();
+            let c = out.len();
+            out.push(grid_case(&mut r, c, cell));
+        }
+    }
     out
+}
+
+// ------------------------------------------------------------------------------------------------ grid of cells
+
+struct Cell {
+    src: &'static str,
+    field: Value,
+    n: usize,
+    /// values most non-null rows are drawn from (empty: the ordinary generator)
+    specials: Vec<Value>,
+    /// column targets; `None` = made from the rows (enum targets naming actual values)
+    targets: Vec<Value>,
+    /// reads per target
+    k: usize,
+    kind: &'static str,
+}
+
+const SOURCES: [&str; 3] = ["wire", "arrow", "own"];
+
+fn leaf(nullable: bool, dt: Value) -> Value {
+    lgen::mk_field("c", nullable, dt)
+}
+
+fn t(name: &str) -> Value {
+    json!({ "t": name })
+}
+
+fn grid_cells(r: &mut Rng) -> Vec<Cell> {
+    let mut out = Vec::new();
+    let ints = ["Int8", "Int16", "Int32", "Int64", "UInt8", "UInt16", "UInt32", "UInt64"];
+    let units = ["Second", "Millisecond", "Microsecond", "Nanosecond"];
+    let mut flip = false;
+    let mut nullable = || {
+        flip = !flip;
+        flip
+    };
+    // (a) dictionaries into every string-like target
+    for src in SOURCES {
+        for k in ints {
+            for v in ["Utf8", "LargeUtf8"] {
+                let field = leaf(nullable(), json!({"t": "Dictionary", "key": t(k), "value": t(v)}));
+                out.push(Cell { src, field, n: 6 + r.usize(8), specials: vec![], targets: vec![], k: 3, kind: "dict" });
+            }
+        }
+    }
+    // (c) temporal and decimal columns into the string-like targets, values at every boundary
+    let mut temporal: Vec<Value> = vec![t("Date32"), t("Date64")];
+    for u in ["Second", "Millisecond"] {
+        temporal.push(json!({"t": "Time32", "unit": u}));
+    }
+    for u in ["Microsecond", "Nanosecond"] {
+        temporal.push(json!({"t": "Time64", "unit": u}));
+    }
+    for u in units {
+        temporal.push(json!({"t": "Timestamp", "unit": u, "tz": null}));
+        temporal.push(json!({"t": "Timestamp", "unit": u, "tz": "UTC"}));
+    }
+    for u in units {
+        temporal.push(json!({"t": "Duration", "unit": u}));
+    }
+    for (p, s) in [(38, 0), (38, 10), (10, 2), (5, 5), (1, 0), (9, -2), (38, -3), (20, 20)] {
+        temporal.push(json!({"t": "Decimal128", "p": p, "s": s}));
+    }
+    for src in SOURCES {
+        for dt in &temporal {
+            if src == "own" && dt["t"] == "Decimal128" {
+                continue; // no serde presentation here (decimal codec: C15)
+            }
+            let targets = vec![json!("string"), json!("str"), json!("byte_buf"), json!("bytes"), json!({"option": "string"})];
+            out.push(Cell { src, field: leaf(nullable(), dt.clone()), n: 18 + r.usize(5), specials: lgen::boundary_values(dt), targets, k: 10, kind: "temporal" });
+        }
+    }
+    // (d) float narrowing / widening
+    for src in SOURCES {
+        for (ty, reps) in [("Float64", 4), ("Float32", 2), ("Float16", 2)] {
+            for _ in 0..reps {
+                let targets = if ty == "Float64" {
+                    vec![json!("f32"), json!({"option": "f32"}), json!({"newtype": "f32"}), json!("f32")]
+                } else {
+                    vec![json!("f64"), json!("f32"), json!({"option": "f64"}), json!({"newtype": "f64"})]
+                };
+                out.push(Cell { src, field: leaf(nullable(), t(ty)), n: 14 + r.usize(4), specials: lgen::boundary_values(&t(ty)), targets, k: 8, kind: "float" });
+            }
+        }
+    }
+    // (b) struct columns into maps with every kind of key target
+    for src in SOURCES {
+        for i in 0..22 {
+            let nf = [1, 2, 2, 3, 3, 2, 4, 0, 1, 2, 3][i % 11];
+            let names = lgen::field_names(r, nf, i % 2 == 0);
+            let fields: Vec<Value> = if i % 3 != 2 {
+                // all children of one type: a typed value target fits every entry
+                let dt = match r.below(6) {
+                    0 => t("Int32"),
+                    1 => t("Utf8"),
+                    2 => t("Boolean"),
+                    3 => t("Float64"),
+                    4 => t("Date32"),
+                    _ => json!({"t": "Dictionary", "key": t("Int8"), "value": t("Utf8")}),
+                };
+                let nl = r.bool();
+                names.iter().map(|nm| lgen::mk_field(nm, nl, dt.clone())).collect()
+            } else {
+                names.iter().map(|nm| lgen::gen_field(r, nm, 1)).collect()
+            };
+            let field = leaf(nullable(), json!({"t": "Struct", "fields": fields}));
+            out.push(Cell { src, field, n: 3 + r.usize(6), specials: vec![], targets: vec![], k: 2, kind: "structmap" });
+        }
+    }
+    // (e) struct views with a repeated child name
+    for i in 0..24 {
+        let nf = 2 + i % 3;
+        let names = lgen::field_names(r, nf, i % 2 == 0);
+        let same = i % 4 < 2;
+        let dt0 = if r.bool() { t("Int32") } else { t("Utf8") };
+        let fields: Vec<Value> = names.iter().map(|nm| if same { lgen::mk_field(nm, i % 8 < 4, dt0.clone()) } else { lgen::gen_field(r, nm, (i % 2) as usize) }).collect();
+        let field = leaf(nullable(), json!({"t": "Struct", "fields": fields}));
+        out.push(Cell { src: "wire", field, n: 2 + r.usize(6), specials: vec![], targets: vec![], k: 0, kind: "dup" });
+    }
+    out
+}
+
+/// enum-by-name target with unit variants named after about half of the distinct values of the column plus one
+/// name that never occurs
+fn enum_of_values(r: &mut Rng, rows: &[Value]) -> Value {
+    let mut names: Vec<String> = Vec::new();
+    for row in rows.iter().filter(|x| !x.is_null()) {
+        if let Ok(s) = String::from_utf8(unhex(row["str"].as_str().unwrap_or(""))) {
+            if !names.contains(&s) {
+                names.push(s);
+            }
+        }
+    }
+    r.shuffle(&mut names);
+    let keep = (names.len() + 1) / 2 + if names.len() > 1 && r.bool() { 1 } else { 0 };
+    names.truncate(keep.min(names.len()));
+    names.insert(r.usize(names.len() + 1), "zz-never".to_string());
+    json!({"enum": names.iter().map(|nm| json!([nm, "unit"])).collect::<Vec<_>>()})
+}
+
+/// the map targets of cell (b) for one struct column: every key target × a value target taken in turn
+fn struct_map_targets(r: &mut Rng, field: &Value) -> Vec<Value> {
+    let fs = field["dt"]["fields"].as_array().unwrap();
+    let names: Vec<&str> = fs.iter().map(|f| f["name"].as_str().unwrap()).collect();
+    let uniform = !fs.is_empty() && fs.iter().all(|f| f["dt"] == fs[0]["dt"] && f["nullable"] == fs[0]["nullable"]);
+    let mut vals = vec![json!("any"), json!("ignored")];
+    if uniform {
+        vals.push(wiregen::natural_target(&fs[0]));
+    }
+    let units = |ns: &[&str]| -> Vec<Value> { ns.iter().map(|nm| json!([nm, "unit"])).collect() };
+    let mut keys = vec![
+        json!("char"), json!("byte_buf"), json!("ignored"), json!("str"), json!("bytes"), json!("i32"),
+        json!({"option": "string"}), json!({"newtype": "string"}),
+        json!({"enum": units(&names)}),
+        json!({"enum_idx": units(&names)}),
+    ];
+    if !names.is_empty() {
+        // one name missing (→ unknown variant), one matching variant with a payload
+        let drop = r.usize(names.len());
+        let fewer: Vec<&str> = names.iter().enumerate().filter(|(i, _)| *i != drop).map(|(_, nm)| *nm).collect();
+        keys.push(json!({"enum": units(&fewer)}));
+        let pay = r.usize(names.len());
+        keys.push(json!({"enum": names.iter().enumerate().map(|(i, nm)| if i == pay { json!([nm, {"newtype": "i32"}]) } else { json!([nm, "unit"]) }).collect::<Vec<_>>()}));
+    }
+    let mut out = Vec::new();
+    let start = r.usize(vals.len());
+    for (i, k) in keys.iter().enumerate() {
+        out.push(json!({"map": [k, vals[(start + i) % vals.len()]]}));
+        out.push(json!({"map": [k, vals[(start + i + 1) % vals.len()]]}));
+    }
+    out
+}
+
+fn grid_case(r: &mut Rng, c: usize, cell: Cell) -> Value {
+    let sub_seed = r.0;
+    let Cell { src, mut field, n, mut specials, mut targets, k, kind } = cell;
+    if src == "own" {
+        // values the serde presentation cannot carry (a signalling f16 NaN) would skip the whole case
+        let plain = leaf(false, field["dt"].clone());
+        specials.retain(|v| to_sval(&plain, v).is_some());
+    }
+    let mut rows = if specials.is_empty() { lgen::gen_rows(r, &field, n) } else { lgen::gen_rows_with(r, &field, n, &specials) };
+    if kind == "dup" {
+        make_dup_names(r, &mut field, &mut rows);
+    }
+    let mut case = json!({"id": format!("read-{c:06}"), "seed": sub_seed, "src": src, "field": field, "fm": wiregen::fmeta(&field), "rows": rows, "grid": kind});
+    match src {
+        "wire" => {
+            let free = r.chance(4, 5);
+            case["view"] = wiregen::encode(r, &field, &rows, free);
+        }
+        "arrow" => {
+            if n > 0 && r.chance(1, 5) {
+                let o = r.usize(n / 3 + 1);
+                let l = n - o - r.usize((n - o) / 3 + 1);
+                case["slice"] = json!([o, l]);
+            }
+        }
+        _ => {}
+    }
+    let vis: Vec<Value> = match case.get("slice") {
+        Some(s) => rows[s[0].as_u64().unwrap() as usize..(s[0].as_u64().unwrap() + s[1].as_u64().unwrap()) as usize].to_vec(),
+        None => rows.clone(),
+    };
+    if kind == "dup" {
+        case["reads"] = Value::Array(reads_for(r, &field, &vis));
+        return case;
+    }
+    match kind {
+        "dict" => {
+            targets = vec![json!("str"), json!("string"), json!("char"), json!("byte_buf"), json!("bytes"), enum_of_values(r, &vis), json!({"option": "str"}),
+                           json!({"newtype": "string"}), json!({"option": enum_of_values(r, &vis)})];
+        }
+        "structmap" => targets = struct_map_targets(r, &field),
+        _ => {}
+    }
+    let name = "c";
+    let nullable = field["nullable"].as_bool().unwrap_or(false);
+    let mut reads = Vec::new();
+    for i in 0..vis.len() {
+        reads.push(json!({"ty": "any", "idx": i}));
+    }
+    reads.push(json!({"bulk": "any"}));
+    let live: Vec<usize> = (0..vis.len()).filter(|i| !vis[*i].is_null()).collect();
+    let dead: Vec<usize> = (0..vis.len()).filter(|i| vis[*i].is_null()).collect();
+    for ty in &targets {
+        // k reads on distinct non-null rows (as far as there are that many), one on a null row
+        let mut order = live.clone();
+        r.shuffle(&mut order);
+        let mut idxs: Vec<usize> = order.into_iter().take(k).collect();
+        if !dead.is_empty() && r.chance(1, 2) {
+            idxs.push(*r.pick(&dead));
+        }
+        for i in idxs {
+            let ty = if nullable && ty.get("option").is_none() && r.chance(1, 5) { json!({"option": ty}) } else { ty.clone() };
+            let rec = if r.chance(1, 8) { wiregen::record_target(&ty, name, r) } else { json!({"struct": [[name, ty]]}) };
+            reads.push(json!({"ty": rec, "idx": i}));
+        }
+    }
+    reads.push(json!({"ty": "any", "idx": vis.len()}));
+    case["reads"] = Value::Array(reads);
+    case
 }
 
 /// LVal row → the serde value a user would serialize for this column (source "own")
